@@ -254,6 +254,29 @@ func c10Worker(args []string) {
 			rep.Calls++
 		}
 	}
+	// standard output that cannot be written to (a full disk): output is lost, and nothing
+	// else happens - in particular nothing is written anywhere else. The descriptor switch
+	// is the harness's doing and sits between PAUSE / RESUME markers.
+	marker("PAUSE")
+	if full, err := os.OpenFile("/dev/full", os.O_WRONLY, 0); err == nil {
+		devnull, _ := syscall.Dup(1)
+		syscall.Dup2(int(full.Fd()), 1)
+		full.Close()
+		marker("RESUME")
+		marker("CALL/standard-output-on-a-full-disk/0")
+		for i, script := range []string{`print("a", 1, [2]); printf("%s %d\n", "x", 3); return 1;`, `foreach i in 1..3 { print(i, "\n"); } printf("%v", {"a": 1}); return true;`, `DEBUG = true; x = 1 + 2; return x;`, `print(); printf("no newline"); return print("z");`} {
+			if evr, err := eng.New(script, eng.Options{Budget: 100000, NoOptimize: i%2 == 0}); err == nil {
+				evr.Exec(map[string]interface{}{"Path": canary})
+				evr.E.Prepare()
+				evr.RunBool(map[string]interface{}{"Path": canary})
+				rep.Calls++
+			}
+		}
+		marker("PAUSE")
+		syscall.Dup2(devnull, 1)
+		syscall.Close(devnull)
+	}
+	marker("RESUME")
 	// variables with special-looking names holding paths, URLs and commands: set by the
 	// host before Prepare, and by the script itself followed by another Prepare (which
 	// is when the engine looks at DEBUG / OPTIMIZE) and further runs
@@ -459,6 +482,10 @@ func c10(c *ev.Ctx) {
 				inside = true
 			case strings.Contains(rest, markerRoot+"END"):
 				inside, sawEnd = false, true
+			case strings.Contains(rest, markerRoot+"PAUSE"):
+				inside = false
+			case strings.Contains(rest, markerRoot+"RESUME"):
+				inside = true
 			default:
 				if mm := regexp.MustCompile(regexp.QuoteMeta(markerRoot) + `([^"]*)"`).FindStringSubmatch(rest); mm != nil {
 					current = mm[1]
